@@ -115,15 +115,22 @@ _CONVERTER = CaptionConverter()
 def compare(orig, got, chain, single_lang_only):
     res = coarsest(chain)
     a, b_ = view(orig, res), view(got, res)
-    langs = orig.get_languages()
+    # (a language without cues has nothing to keep; SAMI has no way to write one)
+    a = {l: v for l, v in a.items() if v}
+    b_ = {l: v for l, v in b_.items() if v}
+    langs = list(a)
+    if not langs:
+        return not b_, {"languages": list(b_), "expected": []}
     if single_lang_only:
         # SRT / WebVTT / MicroDVD carry one language (WebVTT writes the first one; SRT / MicroDVD concatenate):
         # compare the first language only when such a format is on the chain
         la = langs[0]
-        ga = got.get_languages()[0]
+        if not b_:
+            return False, {"cues_read_back": 0, "expected": len(a[la])}
+        ga = list(b_)[0]
         a, b_ = {"x": a[la]}, {"x": b_[ga][:len(a[la])]}
     else:
-        if sorted(got.get_languages()) != sorted(langs):       # (the order of languages is C14's business)
+        if sorted(b_) != sorted(langs):       # (the order of languages is C14's business)
             return False, {"languages": got.get_languages(), "expected": langs}
     for l in a:
         if len(a[l]) != len(b_[l]):
@@ -157,6 +164,9 @@ def bounded(ctx, b):
         # every pair of metacharacters next to each other, inside a sentence (";>" , "&;", "<;", ...)
         CaptionSet({"en-US": CaptionList([Caption((2 * j + 1) * US, (2 * j + 2) * US, [T(f"He winked {x}{y} and left {y}{x}{y}")])
                                           for j, (x, y) in enumerate(itertools.product("&<>;#'-", repeat=2))])}),
+        # a language without cues next to the one that has them (listed after it, and before it)
+        CaptionSet({"en-US": CaptionList([Caption(1000000, 2000000, [T("one")]), Caption(3000000, 4000000, [T("two")])]), "de-DE": CaptionList()}),
+        CaptionSet({"de-DE": CaptionList(), "en-US": CaptionList([Caption(1000000, 2000000, [T("one")]), Caption(3000000, 4000000, [T("two")])])}),
         # consecutive breaks / an empty line inside a cue
         CaptionSet({"en-US": CaptionList([Caption(1000000, 2000000, [T("a"), BR(), BR(), T("b")]), Caption(3000000, 4000000, [T("c"), BR(), T(""), BR(), T("d")]),
                                           Caption(5000000, 6000000, [T("last")])])}),
@@ -177,7 +187,11 @@ def bounded(ctx, b):
     for si, cs in enumerate(sets):
         for chain in chains + longer:
             single = any(f in ("srt", "webvtt", "microdvd") for f in chain)     # these formats carry one, unlabelled language
-            if single and len(cs.get_languages()) > 1:
+            populated = [l for l in cs.get_languages() if cs.get_captions(l)]
+            if single and len(cs.get_languages()) > 1 and (len(populated) > 1 or cs.get_languages()[0] not in populated
+                                                           or any(f in ("srt", "microdvd") for f in chain)):
+                # (SRT / MicroDVD write every language into one file; WebVTT writes the first one: a set whose first
+                # language is the only one with cues is a single-language set for it)
                 continue          # multi-language sets only along chains of formats that carry languages (DFXP, SAMI)
 
             def one(cs=cs, chain=chain, single=single):
@@ -197,6 +211,10 @@ def bounded(ctx, b):
 
 def run(ctx):
     ctx.prove("lemmas.time_resolution", resolution_lemmas, functions=[], crosscheck=False)
+    # no loss of text on the WebVTT hop: every text node of a caption lies in one of the cue groups written for it, also when
+    # its nodes carry different layouts (loop invariant shared with C03 / C12)
+    import props.C03_lines as LN
+    LN.prove_cue_lines(ctx)
     ctx.bounded("chains", "caption sets with sorted, non-overlapping cues below 24 h (1-2 languages, 1-3 cues of 1-3 lines, "
                 "texts with markup characters, times on and off millisecond / frame boundaries incl. 8.040 s) through every "
                 "single format, all 5x5 ordered pairs and seeded chains of length 3-5, two passes: same cues and "
